@@ -271,6 +271,7 @@ func genC13(c *Ctx) {
 		c.Rep.Evaluations += 2
 		c.Count("parser:keyfile")
 	}
+	sexpInputs(c, n/3)
 	// ---- Receive in every state ----
 	rounds := 3
 	perState := 25
